@@ -353,8 +353,16 @@ def run_pred(ctx, p):
             u = np.cross(Q - P, np.asarray(p['offdir'], float))
             u = u / np.linalg.norm(u)
             # points "on" the line carry measurement noise of 1e-10 relative (far above rounding, inside the caller's tolerance)
-            X = X + np.column_stack([u * 1e-10 * max(1.0, float(np.linalg.norm(X[:, i]))) * (1 if i % 2 else -1) if on else u * p['offdist'] * m_ for i, on in enumerate(onoff)])
             tol = 1e-9          # relative to the data magnitude (documented meaning of tol)
+            if p.get('near'):
+                # points off the line by 2 .. 5 times the tolerance that applies to THEM (tol x max(1, |x|, |principal point|)), in one
+                # batch with a point of the line 300 .. 1000 lengths away: each column is judged by its own magnitude
+                d_ = (Q - P) / np.linalg.norm(Q - P)
+                pp_ = P - np.dot(P, d_) * d_
+                X = X + np.column_stack([u * 1e-10 * max(1.0, float(np.linalg.norm(X[:, i]))) * (1 if i % 2 else -1) if on else
+                                         u * float(p['nearfac'][i]) * tol * max(1.0, float(np.linalg.norm(X[:, i])), float(np.linalg.norm(pp_))) for i, on in enumerate(onoff)])
+            else:
+                X = X + np.column_stack([u * 1e-10 * max(1.0, float(np.linalg.norm(X[:, i]))) * (1 if i % 2 else -1) if on else u * p['offdist'] * m_ for i, on in enumerate(onoff)])
             arr = [bool(t) for t in L.contains(X, tol=tol)]
             each = [bool(L.contains(X[:, i].copy(), tol=tol)) for i in range(X.shape[1])]
             cols = [L.contains(X[:, i:i + 1].copy(), tol=tol) for i in range(X.shape[1])]     # a single point as a 3x1 column: one answer, not a list
@@ -636,6 +644,13 @@ def run(ctx):
             N = int(rng.integers(2, 8))
             p = dict(which=which, P=P, Q=Q, lam=rng.uniform(-3, 3, size=N) * np.linalg.norm(Q - P), on=[bool(rng.random() < 0.7) for _ in range(N)],
                      offdir=off, offdist=float(gen.logu(rng, 1e-3, 1.0)), variant='N=%d' % N)
+            if rng.random() < 0.4:
+                lam_ = rng.uniform(-3, 3, size=N) * np.linalg.norm(Q - P)
+                far_ = int(rng.integers(N))
+                lam_[far_] = gen.sign(rng) * rng.uniform(300, 1000) * np.linalg.norm(Q - P)
+                on_ = [bool(rng.random() < 0.5) for _ in range(N)]
+                on_[far_] = True
+                p = dict(p, lam=lam_, on=on_, near=True, nearfac=[float(rng.uniform(2, 5)) for _ in range(N)], variant='near,N=%d' % N)
         elif which == 'contains':
             want = bool(rng.integers(2))
             D = intvec(rng)
